@@ -184,9 +184,35 @@ def proof_gate(ctx, needs):
                hygiene=bad, prop_ok=prop["ok"], prop_log=prop["log"], build_log=log, failed=failed_names,
                printed=prop["printed"], assumptions=prop["assumptions"], complete=prop["complete"])
     ctx.proof = res
+    if ctx.tier == "thorough" and not failed:
+        ck_ok, ck = coqchk(ctx, needs)
+        res["coqchk"] = ck
+        if not ck_ok:
+            res["broken"] = res["broken"] + ["coqchk"]
     ctx.note(f"coq: {len(ok)} files built, failed={failed_names}, property file ok={prop['ok']}, "
              f"theorems={len(obligations)}, axioms={axioms}, hygiene={'clean' if not bad else bad}")
     return res
+
+
+def coqchk(ctx, needs):
+    """Thorough tier: re-check the compiled theory files of the property (and everything they depend on) with the
+    independent checker and return the axiom summary it prints."""
+    mods = []
+    for n in dep_closure(needs):
+        f = theory_path(n)
+        if os.path.exists(f[:-2] + ".vo"):
+            mods.append(("PV." if os.sep + "theories" + os.sep in f else "PVG.") + n)
+    try:
+        p = subprocess.run(["coqchk", "-silent", "-o", "-Q", os.path.join(COQ, "theories"), "PV", "-Q", os.path.join(COQ, "gen"), "PVG", *mods],
+                           capture_output=True, text=True, timeout=3000, cwd=COQ)
+        out = p.stdout + p.stderr
+        i = out.find("CONTEXT SUMMARY")
+        summary = out[i:] if i >= 0 else out[-1500:]
+        ok = p.returncode == 0
+    except subprocess.TimeoutExpired:
+        ok, summary = False, "coqchk timeout"
+    ctx.note(f"coqchk -o on {len(mods)} modules: rc_ok={ok}; " + " ".join(summary.split())[:400])
+    return ok, summary
 
 
 def proof_problem(res):
@@ -375,6 +401,8 @@ def write_evidence(ctx, *, evaluations, distinct_nontrivial, rule, samples, trus
                theorems=pr["obligations"], broken=pr.get("broken", []),
                evaluations=int(evaluations), distinct_nontrivial=int(distinct_nontrivial), rule=rule,
                samples=samples[:6], known_findings_reported=ctx.known_lines, notes=ctx.notes[-40:])
+    if pr.get("coqchk"):
+        cov["coqchk_summary"] = pr["coqchk"][:1500]
     if extra:
         cov.update(extra)
     ev = dict(property_id=ctx.pid, tier=ctx.tier, seed=ctx.seed, level="proof", coverage=cov,
